@@ -67,6 +67,7 @@ func init() {
 			checkC02Clusters(c, budget(c.Tier, 200, 15000), p)
 			checkC02Exotic(c, budget(c.Tier, 100, 2000))
 			checkC02Shadow(c, budget(c.Tier, 150, 5000))
+			checkRenamed(c, budget(c.Tier, 100, 3000), "C02")
 			pp := defaultProfile
 			pp.Utf = 0.4
 			pp.BadDecl = 0.01
@@ -124,6 +125,7 @@ func init() {
 			base.run(c)
 			checkC01Denote(c, budget(c.Tier, 1500, 60000))
 			checkC01TextTypes(c, budget(c.Tier, 150, 5000))
+			checkRenamed(c, budget(c.Tier, 100, 3000), "C01")
 		}}
 	}
 	parseProp("C03", caseRule+"emphasis: pass-through options, terminators, weird tokens", 2500, 100000, func(p *Profile) {
@@ -139,6 +141,7 @@ func init() {
 			checkC03Conserve(c, budget(c.Tier, 1500, 60000))
 			checkC03Handed(c, budget(c.Tier, 600, 30000))
 			checkBadPositional(c, budget(c.Tier, 300, 10000), "C03")
+			checkRenamed(c, budget(c.Tier, 100, 3000), "C03")
 		}}
 	}
 	parseProp("C04", caseRule+"emphasis: arbitrary bytes, malformed tokens, PrintErrors", 2500, 100000, func(p *Profile) {
@@ -229,6 +232,7 @@ func init() {
 			checkC09Shadowed(c, budget(c.Tier, 300, 10000))
 			checkC09OuterWord(c, budget(c.Tier, 200, 6000))
 			checkC09CompletionMode(c, budget(c.Tier, 100, 2000))
+			checkRenamed(c, budget(c.Tier, 100, 3000), "C09")
 			checkC09MissingValue(c, budget(c.Tier, 200, 6000))
 		}}
 	}
